@@ -361,6 +361,7 @@ func checkC12(w *World, r *Run) {
 	ruleDrained := r.Rule("append-runs-on-drained-state", "F1",
 		"the outbox storage forwards AppendObject to the inner storage only after an error-checked wait for the key's queued entries (with or without a write offset): an append applied before an acknowledged queued put is replayed is overwritten by that put and lost", 1)
 	checkOutboxDrain(w, r, ruleDrained, map[string]bool{"AppendObject": true})
+	checkPartInsertIsPlain(w, r)
 	checkC12OffsetZeroIsAnOffset(w, r)
 	r.NotCovered("the concurrent histories themselves and byte-level content; that the database serialises the CAS; appends that create a new version (routed to PutObject) are covered by C07/C13 rules")
 }
